@@ -256,7 +256,7 @@ theorem childOK_rel (P : Nat → Bool) (i : Nat) {a b : Style Rat} (h : StyleRel
       rw [hPf]
       rfl
     · rw [show acc = acc' from hacc]
-      exact GRel.refl_eq _
+      exact GRelW.of_GRel (GRel.refl_eq _)
   · subst h
     have hPt : P i = true := by
       rw [hP, he.boxSizing]
@@ -277,7 +277,7 @@ theorem childOK_rel (P : Nat → Bool) (i : Nat) {a b : Style Rat} (h : StyleRel
           GM.ofOutcome (absTrackIndexes a.grid.row rc) >>= _) = _
         simp only [GridChildStyle.ofStyle, alignAndPositionItem_tbb he]
       rw [this]
-      exact GRel.refl_eq _
+      exact GRelW.of_GRel (GRel.refl_eq _)
 
 /-- the switched subset, read off the two lists -/
 def swP (cs cs' : List (Style Rat)) (i : Nat) : Bool :=
@@ -309,16 +309,13 @@ theorem boxChildren_rel : ∀ (as bs : List (Style Rat)), StylesRel m as bs →
   | a :: as, b :: bs, h => by
     simp only [StylesRel] at h
     have ih := boxChildren_rel as bs h.2
-    unfold boxChildren at ih ⊢
     have hh : (GridChildStyle.ofStyle b).base.isHidden = (GridChildStyle.ofStyle a).base.isHidden :=
       isHidden_rel ⟨m, h.1⟩
     have hg : (GridChildStyle.ofStyle b).gridRow = (GridChildStyle.ofStyle a).gridRow ∧
-        (GridChildStyle.ofStyle b).gridColumn = (GridChildStyle.ofStyle a).gridColumn := by
-      rcases h.1 with e | ⟨_, e⟩ <;> subst e <;> exact ⟨rfl, rfl⟩
-    simp only [List.map_cons, List.filter_cons, hh]
-    split
-    · simp only [List.map_cons, hg.1, hg.2, ih]
-    · exact ih
+        (GridChildStyle.ofStyle b).gridColumn = (GridChildStyle.ofStyle a).gridColumn ∧
+        (GridChildStyle.ofStyle b).base.position = (GridChildStyle.ofStyle a).base.position := by
+      rcases h.1 with e | ⟨_, e⟩ <;> subst e <;> exact ⟨rfl, rfl, rfl⟩
+    rw [List.map_cons, List.map_cons, boxChildren_cons, boxChildren_cons, hh, hg.1, hg.2.1, hg.2.2, ih]
 
 /-- **grid item site**: any subset of eligible child styles switched -/
 theorem gridItems_site (s : Style Rat) (cs cs' : List (Style Rat)) (hr : StylesRel m cs cs') (inp : LayoutInput Rat) :
@@ -329,7 +326,7 @@ theorem gridItems_site (s : Style Rat) (cs cs' : List (Style Rat)) (hr : StylesR
     (childrenOK_rel (swP cs cs') cs cs' 0 hr (fun j a b ha hb => by
       unfold swP
       rw [Nat.zero_add, ha, hb]))
-    (fun ec er => by rw [boxChildren_rel cs cs' hr])
+    (fun ec er => by rw [boxChildren_rel cs cs' hr]) (fun h => h) (fun h => h)
   rw [GRel.to_eq hrel]
 
 /-- `compute_grid_layout` is blind to the rewriting, as the tree theorem needs it -/
